@@ -253,6 +253,7 @@ func FuncOnce() Arg {
 func (b *argBuilder) graph(log hclog.Logger, g *graph.Graph, root graph.Vertex) (
 	[]graph.Vertex, // input vertices
 	[]*Func, // converters
+	error,
 ) {
 	var result []graph.Vertex
 
@@ -349,8 +350,7 @@ func (b *argBuilder) graph(log hclog.Logger, g *graph.Graph, root graph.Vertex) 
 			for _, gen := range b.convGens {
 				f, err := gen(*value)
 				if err != nil {
-					// TODO: return
-					panic(err)
+					return nil, nil, err
 				}
 				if f == nil {
 					continue
@@ -362,5 +362,5 @@ func (b *argBuilder) graph(log hclog.Logger, g *graph.Graph, root graph.Vertex) 
 		}
 	}
 
-	return result, convs
+	return result, convs, nil
 }
